@@ -1,5 +1,6 @@
 "C03 — attributes are carried over, merged and quoted as written"
 import itertools
+import os
 from hypothesis import strategies as st
 from vlib import core, abbr_model as M, abbr_gen as G
 from vlib.core import guard
@@ -122,3 +123,9 @@ def run(ctx):
     ctx.run_parallel('shard_exhaustive', extra=(L,))
     ctx.exhaustive('every sequence of ≤ %d mentions over a 12-mention pool × reverseAttributes on/off (option set rotates over 3)' % L)
     ctx.run_parallel('shard_random', extra=(ctx.pick(500, 6000),))
+    if ctx.thorough or os.environ.get('VERIF_FUZZ'):
+        ctx.run_atheris('attrs', ctx.pick(300, 4000), guided=True)
+
+
+# coverage-guided layer (thorough tier): the Hypothesis strategy under libFuzzer (vlib/fuzz.py, guided mode)
+GUIDED = {'attrs': strategy}
